@@ -35,6 +35,34 @@ def residual_balancing(rho, r_primal, e_primal, r_dual, e_dual):
     return rho
 
 
+def sum_order_can_differ(lam, w):
+    """Can lambda*k and the sum of k copies of lambda differ for some k <= W?  (never for dyadic lambda or W <= 3)"""
+    lam = float(lam)
+    return any(lam * k != float(np.sum(np.full(k, lam))) for k in range(1, int(w) + 1))
+
+
+def within_rounding(fa, fb, rtol=1e-9):
+    """Two result-field dicts: same labels/ints, floats equal within rtol (relative to the field's magnitude)."""
+    if fa is None or fb is None or set(fa) != set(fb):
+        return False
+    for k in fa:
+        a, b = fa[k], fb[k]
+        if k == "point_labels":
+            if a != b:
+                return False
+            continue
+        xa = np.asarray(a, dtype=float) if not isinstance(a, list) or not a or not isinstance(a[0], np.ndarray) \
+            else np.concatenate([np.ravel(v) for v in a])
+        xb = np.asarray(b, dtype=float) if not isinstance(b, list) or not b or not isinstance(b[0], np.ndarray) \
+            else np.concatenate([np.ravel(v) for v in b])
+        if xa.shape != xb.shape:
+            return False
+        scale = max(float(np.max(np.abs(xa))) if xa.size else 0.0, 1e-300)
+        if not np.all(np.abs(xa - xb) <= rtol * scale):
+            return False
+    return True
+
+
 def counterfactual_lambda_sum(orig):
     """The scalar branch computed the way the matrix branch does (sum over positions)."""
     def patched(lambda_parameter, block_id, row, column, block_size, num_blocks):
@@ -90,7 +118,7 @@ class C18(Prop):
                 vs.append((f"{name}:{f}", c))
         return vs
 
-    def compare(self, case, what, c, fp0, rec=None):
+    def compare(self, case, what, c, fp0, rec=None, base_fields=None):
         """Returns (key, detail) or None."""
         out = runner.execute(c, record=False)
         if rec is not None:
@@ -108,6 +136,15 @@ class C18(Prop):
                 cf = runner.execute(case, record=False)
             finally:
                 pat.restore()
+            if fingerprint(cf) != fp and out.ok and cf.ok and \
+                    sum_order_can_differ(case["args"]["sparsity_weight"]["value"], case["args"]["window_size"]) and \
+                    within_rounding(base_fields, out.fields):
+                # the counterfactual seam does not apply to this tree (the scalar branch no longer goes through it), but
+                # the precondition of the known finding holds and the two results agree to rounding (1e-9): same finding
+                return ("C18:lambda_sum_order",
+                        f"scalar lambda={case['args']['sparsity_weight']['value']} and the constant matrix differ at rounding "
+                        f"level only (W={case['args']['window_size']}, lambda*k != sum_k(lambda) for some k <= W); attributed "
+                        f"by magnitude because the counterfactual seam has no effect on this tree")
             if fingerprint(cf) == fp:
                 return ("C18:lambda_sum_order",
                         f"scalar lambda={case['args']['sparsity_weight']['value']} and the constant matrix differ "
@@ -173,6 +210,13 @@ class C18(Prop):
                             f.append(("C18:lambda_sum_order", f"optimiser entry point: scalar lambda={lam} vs constant matrix "
                                                               f"differ by summation order (W={t['args'][2]})"))
                             continue
+                        ta, tb = np.asarray(base_theta, dtype=float), np.asarray(res.theta, dtype=float)
+                        if sum_order_can_differ(lam, t["args"][2]) and ta.shape == tb.shape and \
+                                np.all(np.abs(ta - tb) <= 1e-9 * max(float(np.max(np.abs(ta))), 1e-300)):
+                            f.append(("C18:lambda_sum_order", f"optimiser entry point: scalar lambda={lam} vs constant matrix "
+                                                              f"differ at rounding level only (W={t['args'][2]}); attributed by "
+                                                              f"magnitude, the counterfactual seam has no effect on this tree"))
+                            continue
                         f.append(("C18:entry_scalar_vs_matrix", "optimiser entry point: scalar vs constant-matrix lambda differ"))
                     else:
                         f.append(("C18:entry_form_differs", f"optimiser entry point: lambda as {fm} gives a different Theta"))
@@ -186,7 +230,7 @@ class C18(Prop):
         rec.absorb(base)
         fp0 = fingerprint(base)
         for what, c in self.variants(case, r):
-            res = safe(lambda: self.compare(case, what, c, fp0, rec), rec, "compare")
+            res = safe(lambda: self.compare(case, what, c, fp0, rec, base.fields), rec, "compare")
             rec.probe("pairs_compared")
             if res:
                 key, detail = res
@@ -226,7 +270,7 @@ class C18(Prop):
                 self.variants(case, r)
                 f = self.entry_point(base, case, r, rec)
             return [finding("C18", k, d, rp, extra=dict(event_digest=base.event_digest)) for k, d in f]
-        res = self.compare(case, rp["what"], rp["variant"], fp0)
+        res = self.compare(case, rp["what"], rp["variant"], fp0, None, base.fields)
         return [finding("C18", res[0], res[1], rp, extra=dict(event_digest=base.event_digest))] if res else []
 
     minimise_pair = C14.minimise_pair
